@@ -433,9 +433,30 @@ def run(ctx):
                         continue
                     want = _Pe.atom(d.res) - init - Ke * step
                     if (D == want or D == -want) and (d, step) not in [(g_[1], g_[2]) for g_ in gates]:
-                        gates.append((c, d, step))
+                        # not the bound of a plain scan over the k slots (`for (j = 0; j < k; j++) if (!data[j]) ...`): that variable
+                        # moves on every iteration, it counts nothing
+                        from ..loops import loops_of as _lo1e
+                        scan = any(d.res in L_.ivs() and c.bb is L_.header for L_ in _lo1e(P, fs, pce))
+                        if not scan:
+                            gates.append((c, d, step))
     if not gates:
-        re_.undecided('count gate', loc=fs.mod.src, msg='no comparison of a counter with k found in fragments_to_string')
+        # no counter: the copy-out may be gated by a scan that finds every one of the k slots filled
+        from ..loops import loops_of as _lo1e2
+        scans = []
+        for L_ in _lo1e2(P, fs, pce):
+            hg_ = [g_ for g_ in L_.guards() if g_.block is L_.header]
+            if len(hg_) == 1 and L_.count_for(hg_[0])[0] == Ke:
+                for b_ in L_.body:
+                    t_ = b_.insts[-1]
+                    c_ = fs.defs.get(t_.ops[0]) if t_.op == 'br' and t_.ops else None
+                    if c_ is not None and c_.op == 'icmp' and 'null' in c_.ops and any(s_ not in L_.body for s_ in b_.succs) and b_ is not L_.header:
+                        ld_ = fs.defs.get(strip_ptr_casts(fs, c_.ops[0] if c_.ops[1] == 'null' else c_.ops[1]))
+                        if ld_ is not None and ld_.op == 'load':
+                            scans.append((L_, c_))
+        if scans:
+            re_.ok('fragments_to_string: the copy-out is gated by a scan that leaves as soon as one of the k slots is empty (no counter to get wrong)', func=fs.name, loc=scans[0][1].loc)
+        else:
+            re_.undecided('count gate', loc=fs.mod.src, msg='no comparison of a counter with k found in fragments_to_string')
     for c, cphi, step in gates:
         incs = []
         for i in fs.insts():
